@@ -157,13 +157,17 @@ func flagList(m map[string]bool) []string {
 	return l
 }
 
-// classFP: a failing case that lies in one of the recorded narrow input
-// classes is reported under that class's fingerprint.
-func classFP(flags []string, dflt string) string {
-	if len(flags) > 0 {
-		return flags[0]
+// classFP: the fingerprint of a failing generated case is always its own
+// (family + hash). Only the pinned witnesses report under the fingerprint of a
+// recorded input class, so that an unrelated failure whose input merely lies in
+// such a class is never mislabelled; the class is named in the message.
+func classFP(flags []string, dflt string) string { return dflt }
+
+func classNote(flags []string) string {
+	if len(flags) == 0 {
+		return ""
 	}
-	return dflt
+	return " [input lies in the recorded class(es) " + strings.Join(flags, ", ") + "]"
 }
 
 type judged struct {
@@ -255,7 +259,7 @@ func runEval(c *run.Ctx, cs *Case, fam string, nontrivSample bool) bool {
 			ok = false
 			c.Violation(classFP(fl, fam+":"+hash),
 				fmt.Sprintf("template %s (optimize=%v) on %s: expected %s, observed %s",
-					run.Q(tpl), cs.Opt, ctxString(cx), candString(js[i].cands), run.Q(got)), cs)
+					run.Q(tpl), cs.Opt, ctxString(cx), candString(js[i].cands), run.Q(got))+classNote(fl), cs)
 			break
 		}
 	}
@@ -309,8 +313,8 @@ func Run(c *run.Ctx) {
 	sweepIndex(c)
 	sweepSplitJoin(c)
 	sweepRange(c)
-	random(c, "int", c.N(100000, 1500000))
-	random(c, "str", c.N(100000, 1500000))
+	random(c, "int", c.N(150000, 1500000))
+	random(c, "str", c.N(150000, 1500000))
 	concurrent(c, c.N(160, 1600))
 }
 
